@@ -2,9 +2,11 @@
 
 Proof: TsVerif/C08/Props.lean over the reference-counted heap model (TsVerif/C08/Model.lean: retain,
 release with the explicit stack, clone, make_mut, the ownership skeleton of ts_subtree_edit,
-tree copy/delete/edit).  Tie: (1) syntactic obligation that atomic_inc/atomic_dec expand to
-__atomic_*_fetch(.., SEQ_CST) on this platform and that ts_subtree_retain/release are the only
-writers of ref_count (the model's atomicity assumption); (2) T-corr: histories of
+tree copy/delete/edit).  Tie: (1) the model's atomicity / exclusivity assumptions, by behavioural probes through
+the unity build cunit_c08 (16-thread lost-update probe of atomic_inc/atomic_dec, concurrent
+retain/release of one shared subtree, make_mut in place iff unshared) plus a token-level SEQ_CST
+obligation on the preprocessed atomic.h (follows wrapper functions) and a scan for non-atomic
+ref_count writes; (2) T-corr: histories of
 copy/edit/re-parse/query/walk/delete over 1-6 handles through the Rust API; after every operation
 every live handle is dumped (all fields, ref_count, addresses) and the model's prediction for
 copy/edit/delete (counts, sharing, payloads, up to cell ids) must equal the real heap; (3) judge
@@ -104,7 +106,7 @@ def run(ctx):
     ctx.trusted += [
         "hand model TsVerif/C08/Model.lean of retain/release/clone/make_mut/edit-skeleton/tree copy+delete (tied by correspondence on full heap dumps)",
         "TsVerif/C10/Model.lean (lead's port of the edit geometry) decides which nodes an edit visits and their new payload",
-        "sequentially consistent atomic increments/decrements (tied syntactically to atomic.h on this platform); real memory ordering, torn reads and the Rust Send/Sync declarations are NOT modelled",
+        "sequentially consistent atomic increments/decrements (probed on the real code with 16 threads; the memory order is tied at token level to the preprocessed atomic.h on this platform); real memory ordering, torn reads and the Rust Send/Sync declarations are NOT modelled",
     ]
     ctx.assumptions += ["operations of different threads act on distinct tree handles (the API contract)",
                         "re-parse is abstract in the model: its result is taken from the real run and only judged (ref counts = owners, other handles unchanged)"]
